@@ -7,6 +7,7 @@ import Atto.Driver.SessOp
 import Atto.Driver.CharsetOp
 import Atto.Driver.HappyOp
 import Atto.Driver.WdOp
+import Atto.Driver.TlsOp
 namespace Atto.Driver
 open Atto
 
@@ -51,6 +52,7 @@ def runLine (line : String) : String :=
   | "twine" :: args => opTwine args
   | "wd" :: args => opWd args
   | "nop" :: _ => "nop"
+  | "tls" :: args => opTls args
   | "penv" :: args => opPenv args
   | _ => "bad-op"
 
